@@ -477,6 +477,11 @@ func genGenCase(t *rapid.T, prop string) *genCase {
 	if prop == "C16" && uniform(t, "staleout", 3) == 0 {
 		gc.pkg.StaleOut = true
 	}
+	if prop == "C17" && uniform(t, "foreignline", 3) == 0 {
+		for _, f := range gc.pkg.Files {
+			f.Layout |= 128
+		}
+	}
 	if uniform(t, "smap", 2) == 0 && prop != "C16" {
 		gc.mode = "source-map"
 	}
